@@ -45,7 +45,7 @@ theorem close_ok {s : Store} {d : Disk} {A C : List Rec} (i : SInv s d A C) (di 
     · exact f.dfin
 
 theorem inv_init : Inv Sys.init := by
-  refine ⟨⟨?_, ?_, ?_, ?_, ?_, ?_, ?_, ?_⟩, ?_, ?_⟩
+  refine ⟨⟨?_, ?_, ?_, ?_, ?_, ?_, ?_, ?_, by intro f hf; simp [Sys.init] at hf, by intro f hf; simp [Sys.init] at hf⟩, ?_, ?_⟩
   · simp [Sys.init, numsAsc]
   · intro f hf; simp [Sys.init] at hf
   · intro _; rfl
@@ -223,10 +223,10 @@ theorem mem_images {sys : Sys} {c : COp} {img : Disk} {infl : Bool} (h : (img, i
   unfold Sys.images at h
   obtain ⟨b, hb, hm⟩ := List.mem_flatMap.mp h
   obtain ⟨m, _, he⟩ := List.mem_flatMap.mp hm
-  simp only [List.mem_cons, Prod.mk.injEq, List.not_mem_nil, or_false] at he
-  rcases he with ⟨rfl, rfl⟩ | ⟨rfl, rfl⟩
-  · exact ⟨b.1, m, false, hb, rfl⟩
-  · exact ⟨b.1, m, true, hb, rfl⟩
+  obtain ⟨alt, _, he'⟩ := List.mem_map.mp he
+  simp only [Prod.mk.injEq] at he'
+  obtain ⟨rfl, rfl⟩ := he'
+  exact ⟨b.1, m, alt, hb, rfl⟩
 
 end Juno.C14
 
@@ -295,6 +295,54 @@ theorem flush_not_committed (s : Store) (d : Disk) (ft : Fault) (hc : s.closed =
   · simp [h8] at ho
   simp only [h8, ↓reduceIte] at ho ⊢
   exact absurd ho (cleanup_out_committed _ _ _ _)
+
+/-- the tags the driver prints are aligned with the durable states -/
+theorem cleanupTags_length (s : Store) (d : Disk) (n : Nat) (ft : Fault) :
+    (cleanupTags ft).length = (cleanup s d n ft).bases.length := by
+  unfold cleanupTags cleanup
+  simp only
+  split <;> rfl
+
+theorem flushTags_length (s : Store) (d : Disk) (ft : Fault) :
+    (flushTags s ft).length = (flushLocked s d ft).bases.length := by
+  unfold flushTags flushLocked
+  by_cases h0 : s.closed = true
+  · simp only [h0, ↓reduceIte]; rfl
+  simp only [h0, Bool.false_eq_true, ↓reduceIte]
+  by_cases h1 : s.pending.isEmpty = true
+  · simp only [h1, ↓reduceIte]; rfl
+  simp only [h1, Bool.false_eq_true, ↓reduceIte]
+  by_cases h2 : s.repairRequired = true
+  · simp only [h2, ↓reduceIte]; rfl
+  simp only [h2, Bool.false_eq_true, ↓reduceIte]
+  by_cases h3 : (decide (ft = Fault.create) && s.writer.isNone) = true
+  · simp only [h3, ↓reduceIte]; rfl
+  simp only [h3, Bool.false_eq_true, ↓reduceIte]
+  by_cases h4 : ft = Fault.append
+  · simp only [h4, ↓reduceIte]; rfl
+  simp only [h4, ↓reduceIte]
+  by_cases h5 : ft = Fault.appendNoRepair
+  · simp only [h5, ↓reduceIte]; rfl
+  simp only [h5, ↓reduceIte]
+  by_cases h6 : countPrunes s.pending = 0
+  · simp only [h6, ↓reduceIte]; rfl
+  simp only [h6, ↓reduceIte]
+  by_cases h7 : s.sinceCleanup + countPrunes s.pending < cleanupInterval
+  · simp only [h7, ↓reduceIte]; rfl
+  simp only [h7, ↓reduceIte]
+  by_cases h8 : ft = Fault.watermark
+  · simp only [h8, ↓reduceIte]; rfl
+  simp only [h8, ↓reduceIte, List.length_append]
+  rw [← cleanupTags_length]
+  rfl
+
+theorem closeTags_length (s : Store) (d : Disk) (ft : Fault) :
+    (closeTags s ft).length = (closeStore s d ft).bases.length := by
+  unfold closeTags closeStore
+  split
+  · rfl
+  · simp only [List.length_append, flushTags_length s d ft]
+    rfl
 
 theorem run_append (sys : Sys) (a b : List Op) : sys.run (a ++ b) = (sys.run a).run b := by
   simp [Sys.run, List.foldl_append]
